@@ -9,31 +9,41 @@ DPOBJ = ('diff', 'max', 'min', 'klargest:1', 'klargest:2', 'klargest:3', 'ksmall
 def jobs(tier):
     J = []
     ck = ('c02',)
+    T = tier == 'thorough'
     small = [(3, 2), (4, 2), (4, 3), (2, 1), (3, 1), (2, 3), (3, 4)]
     for (n, k) in small:
         for alg in EXACT_DIFF:
-            if alg == 'rnp' and k == 1:
-                continue
             J.append(job('C02', alg, n, k, obj='diff', checks=ck))
+    for (n, k) in [(3, 2), (4, 2), (2, 3), (3, 1)]:
         for o in DPOBJ:
-            if (n, k) in ((3, 2), (4, 2), (4, 3), (2, 3), (3, 1)):
-                J.append(job('C02', 'dp', n, k, obj=o, checks=ck))
-    for (n, k) in [(3, 2), (4, 2), (4, 3), (3, 4), (3, 1)]:
+            J.append(job('C02', 'dp', n, k, obj=o, checks=ck))
+    for o in (DPOBJ if T else ('diff', 'klargest:2', 'ksmallest:2')):
+        J.append(job('C02', 'dp', 4, 3, obj=o, checks=ck))
+    for (n, k) in [(3, 2), (4, 2), (3, 4), (3, 1)]:
         for o in OBJ3:
             for mask in range(16):
                 J.append(job('C02', 'cg', n, k, obj=o, cg_mask=mask, checks=ck))
-    for alg in EXACT_DIFF:
+    for o in OBJ3:
+        for mask in (range(16) if T else (0, 1, 2, 4, 8, 11, 15)):
+            J.append(job('C02', 'cg', 4, 3, obj=o, cg_mask=mask, checks=ck))
+    for alg in (EXACT_DIFF if T else ('snp', 'rnp')):
         J.append(job('C02', alg, 5, 3, obj='diff', order='desc', checks=ck))
-    for (n, k) in [(3, 2), (3, 3), (4, 2)]:
+    for o in ('diff', 'max', 'min', 'klargest:2', 'ksmallest:2'):
+        J.append(job('C02', 'ilp', 3, 2, obj=o, checks=ck))
+    J.append(job('C02', 'ilp', 3, 3, obj='diff', checks=ck, order='desc')); J.append(job('C02', 'ilp', 4, 2, obj='min', checks=ck, order='desc'))
+    if T:
         for o in ('diff', 'max', 'min', 'klargest:2', 'ksmallest:2'):
-            J.append(job('C02', 'ilp', n, k, obj=o, checks=ck))
-    if tier == 'thorough':
+            J.append(job('C02', 'ilp', 3, 3, obj=o, checks=ck)); J.append(job('C02', 'ilp', 4, 2, obj=o, checks=ck))
         for alg in EXACT_DIFF + ('cg',):
             for (n, k) in [(5, 2), (5, 4)]:
                 kw = dict(cg_mask=11) if alg == 'cg' else {}
                 J.append(job('C02', alg, n, k, obj='diff', order='desc', checks=ck, **kw))
         for o in OBJ3:
             J.append(job('C02', 'dp', 5, 2, obj=o, order='desc', checks=ck))
+            J.append(job('C02', 'cg', 5, 3, obj=o, cg_mask=11, order='desc', checks=ck))
+        J.append(job('C02', 'cg', 5, 3, obj='max', cg_mask=15, order='desc', checks=ck))
+        J.append(job('C02', 'snp', 6, 3, obj='diff', order='desc', checks=ck, mandatory=False))
+        J.append(job('C02', 'rnp', 6, 3, obj='diff', order='desc', checks=ck, mandatory=False))
     return J
 
 
